@@ -131,7 +131,7 @@ theorem finishPrepare_unfold (S : Scheme) (n : Record) (pk : S.PK) (chk : Bool) 
   · rw [if_pos h1, if_pos (by simpa using h1)]
   · rw [if_neg h1, if_neg (by simpa using h1)]
     by_cases h2 : n.seq + 1 < 2 ^ 64
-    · rw [if_pos h2, if_pos h2]
+    · rw [if_pos h2, if_pos h2]; rfl
     · rw [if_neg h2, if_neg h2]
 
 theorem finishPrepare_ok_inv {S : Scheme} {n : Record} {pk : S.PK} {chk : Bool} {ret : Ret}
@@ -367,12 +367,18 @@ theorem prepareG_nf (S : Scheme) (r : Record) (op : Op S) (pk : S.PK) (chk : Boo
     · cases checkReserved _ (encBytes ip) with
       | error e => rfl
       | ok u => simp [afterPre, newContent, opRaw, opRet, opChk, ipKey, *]
+  | setClientInfo n v b =>
+    cases b <;>
+    · simp only [prepareG, opPre, prepInsertRaw_nf, clientList]
+      cases checkReserved _ _ with
+      | error e => rfl
+      | ok u => simp [afterPre, newContent, opRaw, opRet, opChk, clientList]
   | insert key v | insertRaw key raw | setUdp4 p | setUdp6 p | setTcp4 p | setTcp6 p
-  | setClientInfo n v b | setPublicKey pk' =>
-    simp only [prepareG, opPre, prepInsertRaw_nf, clientList]
+  | setPublicKey pk' =>
+    simp only [prepareG, opPre, prepInsertRaw_nf]
     cases checkReserved _ _ with
     | error e => rfl
-    | ok u => simp [afterPre, newContent, opRaw, opRet, opChk, clientList]
+    | ok u => simp [afterPre, newContent, opRaw, opRet, opChk]
   | removeUdp4 | removeUdp6 | removeTcp | removeTcp6 | removeKey key =>
     simp [prepareG, prepRemoveKey, opPre, afterPre, newContent, opRaw, opRet, opChk]
   | setUdpSocket ip port | setTcpSocket ip port =>
@@ -472,7 +478,7 @@ theorem prepareG_true_cases (S : Scheme) (r : Record) (op : Op S) (pk : S.PK) :
         rcases finishPrepare_true_cases
           ({ r with content := newContent S op pk r.content } : Record) pk
           (opRet S op r.content) with ⟨h1, h2⟩ | ⟨_, h2⟩
-        · exact Or.inl ⟨rfl, rfl, hop', h1, h2⟩
+        · exact Or.inl ⟨by simp, by simp, hop', h1, h2⟩
         · exact Or.inr h2
 
 /-! ### 3. the effect of a successful `step` -/
@@ -486,8 +492,11 @@ theorem step_effect {S : Scheme} {r r' : Record} {op : Op S} {pk : S.PK} {o : Op
   obtain ⟨p, sig, hp, ho, hr, hret, hsz⟩ := step_ok_inv h
   obtain ⟨_, h2, h3, _⟩ := prepareG_ok_inv hp
   subst hr
-  simp only [h2] at *
-  exact ⟨rfl, by rw [hret, h3], rfl, rfl, ⟨sig, ho, rfl⟩, hsz⟩
+  refine ⟨?_, by rw [hret, h3], ?_, rfl, ⟨sig, ho, rfl⟩, hsz⟩
+  · show p.enr.content = _
+    rw [h2]
+  · show p.enr.seq = _
+    rw [h2]
 
 /-! ### 4. `removeAll` and `insertAll` against the map model -/
 
@@ -842,14 +851,18 @@ theorem prepRemoveKey_error_cause {S : Scheme} {r : Record} {key : Bytes} {pk : 
     TailCause S { r with content := withPubkey S (Map.erase r.content key) pk } pk false e :=
   finishPrepare_error_cause h
 
+/-- the staged record of `set_socket` -/
+def stagedSocket (S : Scheme) (r : Record) (ip : Bytes) (port : Nat) (isTcp : Bool) (pk : S.PK) :
+    Record :=
+  { r with content := withPubkey S (Map.insert (Map.insert r.content (ipKey ip) (encBytes ip))
+      (if isTcp then tcpKey ip else udpKey ip) (encUint port)) pk }
+
 theorem prepSetSocket_error_cause {S : Scheme} {r : Record} {ip : Bytes} {port : Nat} {isTcp : Bool}
     {pk : S.PK} {chk : Bool} {e : EnrErr} (h : prepSetSocket S r ip port isTcp pk chk = .error e) :
-    TailCause S { r with content := withPubkey S
-      (Map.insert (Map.insert r.content (ipKey ip) (encBytes ip))
-        (if isTcp then tcpKey ip else udpKey ip) (encUint port)) pk } pk chk e := by
+    TailCause S (stagedSocket S r ip port isTcp pk) pk chk e := by
   unfold prepSetSocket at h
   have := finishPrepare_error_cause h
-  unfold TailCause ipKey tcpKey udpKey
+  unfold TailCause stagedSocket ipKey tcpKey udpKey
   by_cases h4 : ip.length = 4
   · simp only [h4, if_true] at this ⊢
     cases isTcp <;> simpa using this
@@ -904,5 +917,400 @@ theorem prepareG_setSeq_error_cause {S : Scheme} {r : Record} {s : Nat} {pk : S.
     subst h
     exact preSign_error_cause hp
   · cases h
+
+/-! ### 8. when an update succeeds -/
+
+theorem preSign_ok_of {S : Scheme} {n : Record} {pk : S.PK} (hid : n.id = some vV4)
+    (hk : checkSigningKey S n.content pk = .ok ()) : preSign S n pk = .ok () := by
+  unfold preSign
+  rw [hid]
+  simp only [if_true]
+  exact hk
+
+theorem step_of_prepare_error {S : Scheme} {r : Record} {op : Op S} {pk : S.PK} {e : EnrErr}
+    (o : Option Bytes) (h : prepare S r op pk = .error e) : step S r op pk o = (.err e, r) := by
+  unfold step; rw [h]
+
+theorem step_of_prepare_ok {S : Scheme} {r : Record} {op : Op S} {pk : S.PK} {p : Prepared}
+    (sig : Bytes) (h : prepare S r op pk = .ok p) :
+    step S r op pk (some sig) =
+      if ({ p.enr with sig := sig, nodeId := nodeIdOf S pk } : Record).size > 300
+      then (.err .exceedsMaxSize, r)
+      else (.ok p.ret, { p.enr with sig := sig, nodeId := nodeIdOf S pk }) := by
+  unfold step; rw [h]; rfl
+
+/-- the record an update produces when it succeeds -/
+def resultOf (S : Scheme) (r : Record) (op : Op S) (pk : S.PK) (sig : Bytes) : Record :=
+  ⟨newSeq op r, nodeIdOf S pk, newContent S op pk r.content, sig⟩
+
+/-- A sufficient (and, by `step_effect`/`prepareG_ok_inv`, necessary) condition for an update
+    other than `set_seq` to succeed. -/
+theorem step_ok_of {S : Scheme} {r : Record} {op : Op S} {pk : S.PK} {sig : Bytes}
+    (hop : op.isSetSeq = false) (hpre : opPre S op r.content = .ok ())
+    (hfirst : opChk op = true →
+      ({ r with content := newContent S op pk r.content } : Record).size ≤ 300)
+    (hseq : r.seq + 1 < 2 ^ 64)
+    (hid : ({ r with content := newContent S op pk r.content } : Record).id = some vV4)
+    (hkey : checkSigningKey S (newContent S op pk r.content) pk = .ok ())
+    (hfinal : (resultOf S r op pk sig).size ≤ 300) :
+    step S r op pk (some sig) = (.ok (opRet S op r.content), resultOf S r op pk sig) := by
+  have hs : newSeq op r = r.seq + 1 := by
+    cases op <;> first | rfl | (simp [Op.isSetSeq] at hop)
+  have hp : prepare S r op pk =
+      .ok ⟨{ r with seq := r.seq + 1, content := newContent S op pk r.content },
+        opRet S op r.content⟩ := by
+    unfold prepare
+    rw [prepareG_nf S r op pk true hop, hpre]
+    simp only [afterPre, finishPrepare_unfold]
+    rw [if_neg, if_pos hseq, preSign_ok_of
+      (n := { r with seq := r.seq + 1, content := newContent S op pk r.content }) hid hkey]
+    rintro ⟨h1, h2⟩
+    simp only [Bool.true_and] at h1
+    have := hfirst h1
+    omega
+  rw [step_of_prepare_ok sig hp]
+  unfold resultOf at *
+  rw [hs] at hfinal ⊢
+  rw [if_neg (by simp only; omega)]
+
+/-! ### 9. refusal for size -/
+
+theorem checkReserved_error_kind {k v : Bytes} {e : EnrErr} (h : checkReserved k v = .error e) :
+    e = .unsupportedId ∨ ∃ x, e = .invalidRlp x := by
+  unfold checkReserved at h
+  simp only at h
+  repeat' split at h
+  all_goals
+    cases h <;> first | exact Or.inl rfl | exact Or.inr ⟨_, rfl⟩
+
+theorem insertAll_error_kind {c : Content} {ins : List (Bytes × Bytes)} {e : EnrErr}
+    (h : insertAll c ins = .error e) : e = .unsupportedId ∨ ∃ x, e = .invalidRlp x := by
+  obtain ⟨_, k, v, _, _, h2⟩ := insertAll_error_cause h
+  rcases h2 with ⟨_, _, h3⟩ | h3
+  · exact Or.inl h3
+  · exact checkReserved_error_kind h3
+
+/-- The argument checks only ever report a value error. -/
+theorem opPre_error_kind {S : Scheme} {op : Op S} {c : Content} {e : EnrErr}
+    (h : opPre S op c = .error e) : e = .unsupportedId ∨ ∃ x, e = .invalidRlp x := by
+  cases op with
+  | removeInsert rm ins =>
+    simp only [opPre] at h
+    split at h
+    · rename_i e' hi
+      simp only [Except.error.injEq] at h
+      subst h
+      exact insertAll_error_kind hi
+    · cases h
+  | insert | insertRaw | setIp | setUdp4 | setUdp6 | setTcp4 | setTcp6 | setClientInfo
+  | setPublicKey => simp only [opPre] at h; exact checkReserved_error_kind h
+  | _ => cases h
+
+/-- Without the pre-signing size check, `prepareG` never reports `exceedsMaxSize`. -/
+theorem prepareG_false_ne_exceeds {S : Scheme} (r : Record) (op : Op S) (pk : S.PK) :
+    prepareG S r op pk false ≠ .error .exceedsMaxSize := by
+  intro h
+  by_cases hop : op.isSetSeq = true
+  · cases op with
+    | setSeq s =>
+      rcases prepareG_setSeq_error_cause h with ⟨h1, _⟩ | ⟨h1, _⟩ <;> cases h1
+    | _ => simp [Op.isSetSeq] at hop
+  · have hop' : op.isSetSeq = false := by simpa using hop
+    rcases prepareG_error_cause hop' h with h1 | ⟨_, h1⟩
+    · rcases opPre_error_kind h1 with h2 | ⟨x, h2⟩ <;> cases h2
+    · rcases h1 with ⟨_, h2, _⟩ | ⟨h2, _⟩ | ⟨h2, _⟩ | ⟨h2, _⟩
+      · simp at h2
+      all_goals cases h2
+
+/-- "Refused only when exceeded": if an update is refused for size, the record it would have
+    produced (new pairs, new sequence number, the new signature) is larger than 300 bytes.  Needs
+    the old and the new signature to have the same length (64 for the built-in key types). -/
+theorem refusal_sound {S : Scheme} {r : Record} {op : Op S} {pk : S.PK} {sig : Bytes}
+    (hl : r.sig.length = sig.length) (h1 : r.sig.length ≠ 1)
+    (h : (step S r op pk (some sig)).1 = .err .exceedsMaxSize) :
+    (resultOf S r op pk sig).size > 300 := by
+  cases hp : prepare S r op pk with
+  | error e =>
+    rw [step_of_prepare_error _ hp] at h
+    simp only [Res.err.injEq] at h
+    subst h
+    unfold prepare at hp
+    rcases prepareG_true_cases S r op pk with ⟨_, _, hop, hbig, _⟩ | heq
+    · have hs : newSeq op r = r.seq + 1 := by
+        cases op <;> first | rfl | (simp [Op.isSetSeq] at hop)
+      have := Sz.size_mono ({ r with content := newContent S op pk r.content } : Record)
+        (resultOf S r op pk sig) hl h1 (by simp only [resultOf, hs]; omega) rfl
+      omega
+    · rw [heq] at hp
+      exact absurd hp (prepareG_false_ne_exceeds r op pk)
+  | ok p =>
+    rw [step_of_prepare_ok sig hp] at h
+    split at h
+    · rename_i hbig
+      obtain ⟨_, h2, _⟩ := prepareG_ok_inv hp
+      have : (resultOf S r op pk sig).size =
+          ({ p.enr with sig := sig, nodeId := nodeIdOf S pk } : Record).size := by
+        apply Sz.size_congr <;> simp [resultOf, h2]
+      omega
+    · simp at h
+
+/-- "Refused whenever exceeded": if, with the pre-signing size check removed, the update gets to the
+    signer and the signed result is too large, the update is refused for size. -/
+theorem refusal_complete {S : Scheme} {r : Record} {op : Op S} {pk : S.PK} {sig : Bytes}
+    {p : Prepared} (hp : prepareG S r op pk false = .ok p)
+    (hbig : ({ p.enr with sig := sig } : Record).size > 300) :
+    (step S r op pk (some sig)).1 = .err .exceedsMaxSize := by
+  rcases prepareG_true_cases S r op pk with ⟨_, _, _, _, herr⟩ | heq
+  · rw [step_of_prepare_error _ herr]
+  · have hp' : prepare S r op pk = .ok p := by unfold prepare; rw [heq, hp]
+    rw [step_of_prepare_ok sig hp']
+    have : ({ p.enr with sig := sig, nodeId := nodeIdOf S pk } : Record).size =
+        ({ p.enr with sig := sig } : Record).size := Sz.size_congr _ _ rfl rfl rfl
+    rw [if_pos (by omega)]
+
+/-- The exact characterisation, for an update that is acceptable apart from its size. -/
+theorem refusal_exact_of_prepared {S : Scheme} {r : Record} {op : Op S} {pk : S.PK} {sig : Bytes}
+    {p : Prepared} (hl : r.sig.length = sig.length) (h1 : r.sig.length ≠ 1)
+    (hp : prepareG S r op pk false = .ok p) :
+    (step S r op pk (some sig)).1 = .err .exceedsMaxSize ↔
+      ({ p.enr with sig := sig } : Record).size > 300 := by
+  constructor
+  · intro h
+    have := refusal_sound hl h1 h
+    obtain ⟨_, h2, _⟩ := prepareG_ok_inv hp
+    have e : (resultOf S r op pk sig).size = ({ p.enr with sig := sig } : Record).size := by
+      apply Sz.size_congr <;> simp [resultOf, h2]
+    omega
+  · exact refusal_complete hp
+
+/-- Why the hypothesis "acceptable apart from its size" cannot be dropped: the pre-signing size
+    check comes first, so at the maximal sequence number a too-large insertion is reported as
+    `exceedsMaxSize` although without that check the call would fail with `seqTooHigh` (there is no
+    result whose size could be measured). -/
+theorem refusal_precedence_seq_max {S : Scheme} {r : Record} {op : Op S} {pk : S.PK}
+    (o : Option Bytes) (hop : op.isSetSeq = false) (hpre : opPre S op r.content = .ok ())
+    (hchk : opChk op = true)
+    (hbig : ({ r with content := newContent S op pk r.content } : Record).size > 300)
+    (hseq : 2 ^ 64 ≤ r.seq + 1) :
+    (step S r op pk o).1 = .err .exceedsMaxSize ∧
+    prepareG S r op pk false = .error .seqTooHigh := by
+  constructor
+  · have : prepare S r op pk = .error .exceedsMaxSize := by
+      unfold prepare
+      rw [prepareG_nf S r op pk true hop, hpre]
+      simp only [afterPre, hchk, Bool.and_self]
+      rw [finishPrepare_unfold, if_pos ⟨rfl, hbig⟩]
+    rw [step_of_prepare_error _ this]
+  · rw [prepareG_nf S r op pk false hop, hpre]
+    simp only [afterPre, Bool.false_and]
+    rw [finishPrepare_unfold, if_neg (by rintro ⟨h, _⟩; cases h), if_neg (by simp only; omega)]
+
+/-! ### 10. `set_public_key` with the signer's own key -/
+
+theorem valueOK_pubkey {S : Scheme} (hL : S.Lawful) (pk : S.PK) :
+    ValueOK (S.enrKey pk) (pubValue S pk) := by
+  obtain ⟨h1, h2, h3, h4⟩ := hL.key_not_reserved pk
+  unfold ValueOK pubValue
+  rw [if_neg h1, if_neg (by simp [h2]), if_neg h3, if_neg h4]
+  split
+  · exact ⟨_, (hL.pub_len pk).1, rfl⟩
+  · exact Or.inl ⟨_, (hL.pub_len pk).1, rfl⟩
+
+theorem checkReserved_pubkey {S : Scheme} (hL : S.Lawful) (pk : S.PK) :
+    checkReserved (S.enrKey pk) (encBytes (S.encodePub pk)) = .ok () :=
+  valueOK_checkReserved _ _ (valueOK_pubkey hL pk)
+
+theorem newContent_setPublicKey_own (S : Scheme) (pk : S.PK) (c : Content) :
+    newContent S (.setPublicKey pk) pk c = withPubkey S c pk := by
+  simp only [newContent, opRaw, withPubkey, pubValue, Map.insert_insert_same]
+
+/-- storing a key that is already stored in canonical form changes nothing -/
+theorem withPubkey_idem {S : Scheme} {c : Content} {pk : S.PK} (hs : Map.Sorted c)
+    (hst : Map.lookup c (S.enrKey pk) = some (pubValue S pk)) : withPubkey S c pk = c :=
+  Map.insert_idem c _ _ hst hs
+
+theorem id_withPubkey {S : Scheme} (hL : S.Lawful) (r : Record) (pk : S.PK)
+    (hid : Map.lookup r.content kId = some (encBytes vV4)) :
+    ({ r with content := withPubkey S r.content pk } : Record).id = some vV4 := by
+  apply getBytes_kId_of_lookup
+  simp only [withPubkey]
+  rw [Map.lookup_insert_ne _ _ _ _ (fun e => (hL.key_not_reserved pk).1 e.symm)]
+  exact hid
+
+/-- `checkSigningKey` accepts the record's own key when it is stored in canonical form. -/
+theorem checkSigningKey_own {S : Scheme} {c : Content} {pk : S.PK} (hs : Map.Sorted c)
+    (hpk : S.enrToPublic c = .ok pk)
+    (hst : Map.lookup c (S.enrKey pk) = some (pubValue S pk)) :
+    checkSigningKey S (withPubkey S c pk) pk = .ok () := by
+  rw [withPubkey_idem hs hst]
+  unfold checkSigningKey
+  rw [hpk]
+  simp
+
+/-- Setting the public key to the signer's own key can only fail for size or for the sequence
+    number: never with a value error, an identity-scheme error or a signing error.
+    `hread` says that the signer's key is the key read back once it is stored (true for every
+    built-in key type when the record's key is the signer's key). -/
+theorem setPublicKey_own_error {S : Scheme} (hL : S.Lawful) {r : Record} {pk : S.PK} {e : EnrErr}
+    (hid : Map.lookup r.content kId = some (encBytes vV4))
+    (hread : checkSigningKey S (withPubkey S r.content pk) pk = .ok ())
+    (h : prepare S r (.setPublicKey pk) pk = .error e) : e = .exceedsMaxSize ∨ e = .seqTooHigh := by
+  unfold prepare at h
+  rcases prepareG_error_cause (by rfl) h with h1 | ⟨_, h1⟩
+  · simp only [opPre] at h1
+    rw [checkReserved_pubkey hL pk] at h1
+    cases h1
+  · rw [newContent_setPublicKey_own] at h1
+    rcases h1 with ⟨h2, _⟩ | ⟨h2, _⟩ | ⟨_, h2⟩ | ⟨_, _, h2⟩
+    · exact Or.inl h2
+    · exact Or.inr h2
+    · exact absurd (id_withPubkey hL r pk hid) h2
+    · simp only at h2
+      rw [hread] at h2
+      cases h2
+
+/-- … and it succeeds whenever the sizes and the sequence number allow it. -/
+theorem setPublicKey_own_ok {S : Scheme} (hL : S.Lawful) {r : Record} {pk : S.PK} {sig : Bytes}
+    (hid : Map.lookup r.content kId = some (encBytes vV4))
+    (hread : checkSigningKey S (withPubkey S r.content pk) pk = .ok ())
+    (hseq : r.seq + 1 < 2 ^ 64)
+    (hfirst : ({ r with content := withPubkey S r.content pk } : Record).size ≤ 300)
+    (hfinal : (⟨r.seq + 1, nodeIdOf S pk, withPubkey S r.content pk, sig⟩ : Record).size ≤ 300) :
+    step S r (.setPublicKey pk) pk (some sig) =
+      (.ok .unit, ⟨r.seq + 1, nodeIdOf S pk, withPubkey S r.content pk, sig⟩) := by
+  have := step_ok_of (S := S) (r := r) (op := .setPublicKey pk) (pk := pk) (sig := sig) (by rfl)
+    (by simp only [opPre]; exact checkReserved_pubkey hL pk)
+    (by intro _; rw [newContent_setPublicKey_own]; exact hfirst) hseq
+    (by rw [newContent_setPublicKey_own]; exact id_withPubkey hL r pk hid)
+    (by rw [newContent_setPublicKey_own]; exact hread)
+    (by simp only [resultOf, newContent_setPublicKey_own, newSeq]; exact hfinal)
+  simpa only [resultOf, newContent_setPublicKey_own, newSeq, opRet] using this
+
+/-! ### 11. the builder -/
+
+/-- the content the builder signs: the added pairs, `id = v4`, the signer's public key -/
+def builtContent (S : Scheme) (b : Builder) (pk : S.PK) : Content :=
+  withPubkey S (Map.insert b.content kId (encBytes vV4)) pk
+
+theorem builder_prepare_ok_inv {S : Scheme} {b b' : Builder} {pk : S.PK}
+    (h : Builder.prepare S b pk = .ok b') :
+    b'.seq = b.seq ∧ b'.content = builtContent S b pk ∧
+    Builder.checkAll (builtContent S b pk) = .ok () ∧
+    checkSigningKey S (builtContent S b pk) pk = .ok () := by
+  unfold Builder.prepare at h
+  simp only at h
+  split at h
+  · cases h
+  · rename_i hc
+    split at h
+    · cases h
+    · rename_i hk
+      simp only [Except.ok.injEq] at h
+      subst h
+      exact ⟨rfl, rfl, hc, hk⟩
+
+theorem builder_bound_eq (b : Builder) (sig : Bytes) :
+    b.rlpContent.length + sig.length + 8 = Sz.builderBound b.seq b.content sig := rfl
+
+theorem build_ok_inv {S : Scheme} {b : Builder} {pk : S.PK} {o : Option Bytes} {r : Record}
+    (h : Builder.build S b pk o = .ok r) :
+    ∃ b' sig, Builder.prepare S b pk = .ok b' ∧ o = some sig ∧
+      Sz.builderBound b'.seq b'.content sig ≤ 300 ∧
+      r = ⟨b'.seq, nodeIdOf S pk, b'.content, sig⟩ := by
+  unfold Builder.build at h
+  split at h
+  · cases h
+  · rename_i b' hp
+    split at h
+    · cases h
+    · rename_i sig
+      split at h
+      · cases h
+      · rename_i hsz
+        simp only [Res.ok.injEq] at h
+        rw [builder_bound_eq, MAX_ENR_SIZE] at hsz
+        exact ⟨b', sig, hp, rfl, by omega, h.symm⟩
+
+theorem build_of_prepare_ok {S : Scheme} {b b' : Builder} {pk : S.PK} (sig : Bytes)
+    (h : Builder.prepare S b pk = .ok b') :
+    Builder.build S b pk (some sig) =
+      if Sz.builderBound b'.seq b'.content sig > 300 then .err .exceedsMaxSize
+      else .ok ⟨b'.seq, nodeIdOf S pk, b'.content, sig⟩ := by
+  unfold Builder.build
+  rw [h]
+  rfl
+
+theorem checkAll_error_cause {c : Content} {e : EnrErr} (h : Builder.checkAll c = .error e) :
+    ∃ k v, (k, v) ∈ c ∧ checkReserved k v = .error e := by
+  induction c with
+  | nil => cases h
+  | cons p rest ih =>
+    obtain ⟨k, v⟩ := p
+    simp only [Builder.checkAll] at h
+    split at h
+    · rename_i e' hc
+      simp only [Except.error.injEq] at h
+      subst h
+      exact ⟨k, v, List.mem_cons_self, hc⟩
+    · obtain ⟨k2, v2, hm, hc⟩ := ih h
+      exact ⟨k2, v2, List.mem_cons_of_mem _ hm, hc⟩
+
+theorem checkAll_ok_inv {c : Content} (h : Builder.checkAll c = .ok ()) :
+    ∀ k v, (k, v) ∈ c → checkReserved k v = .ok () := by
+  induction c with
+  | nil => intro k v hm; cases hm
+  | cons p rest ih =>
+    obtain ⟨k0, v0⟩ := p
+    simp only [Builder.checkAll] at h
+    split at h
+    · cases h
+    · rename_i hc
+      intro k v hm
+      rcases List.mem_cons.mp hm with e | hm'
+      · cases e; exact hc
+      · exact ih h k v hm'
+
+/-- Why `build` fails: a pair is refused (with the error of its own check), the record would not be
+    read back with the signer's key, the signer fails, or the builder's size bound is exceeded. -/
+theorem build_error_cause {S : Scheme} {b : Builder} {pk : S.PK} {o : Option Bytes} {e : EnrErr}
+    (h : Builder.build S b pk o = .err e) :
+    (∃ k v, (k, v) ∈ builtContent S b pk ∧ checkReserved k v = .error e) ∨
+    (e = .signingError ∧ Builder.checkAll (builtContent S b pk) = .ok () ∧
+      checkSigningKey S (builtContent S b pk) pk = .error .signingError) ∨
+    (e = .signingError ∧ o = none ∧ ∃ b', Builder.prepare S b pk = .ok b') ∨
+    (e = .exceedsMaxSize ∧ ∃ b' sig, Builder.prepare S b pk = .ok b' ∧ o = some sig ∧
+      Sz.builderBound b'.seq b'.content sig > 300) := by
+  unfold Builder.build at h
+  split at h
+  · rename_i e' hp
+    simp only [Res.err.injEq] at h
+    subst h
+    unfold Builder.prepare at hp
+    simp only at hp
+    split at hp
+    · rename_i e'' hc
+      simp only [Except.error.injEq] at hp
+      subst hp
+      exact Or.inl (checkAll_error_cause hc)
+    · rename_i hc
+      split at hp
+      · rename_i e'' hk
+        simp only [Except.error.injEq] at hp
+        subst hp
+        have := checkSigningKey_error hk
+        subst this
+        exact Or.inr (Or.inl ⟨rfl, hc, hk⟩)
+      · cases hp
+  · rename_i b' hp
+    split at h
+    · simp only [Res.err.injEq] at h
+      exact Or.inr (Or.inr (Or.inl ⟨h.symm, rfl, b', hp⟩))
+    · rename_i sig
+      split at h
+      · rename_i hsz
+        simp only [Res.err.injEq] at h
+        rw [builder_bound_eq, MAX_ENR_SIZE] at hsz
+        exact Or.inr (Or.inr (Or.inr ⟨h.symm, b', sig, hp, rfl, hsz⟩))
+      · cases h
 
 end EnrVerif.Eff
